@@ -5,9 +5,11 @@
 Require Import ExtrOcamlBasic.
 Require Import Selium.Base Selium.RustArith Selium.BackoffSpec Selium.BackoffRun.
 Require Import SeliumGen.Backoff.
+Require Import Selium.Regex Selium.TopicSpec Selium.TopicName.
 
 Extraction Language OCaml.
 Extraction "model.ml"
   N.add N.mul N.sub N.div N.modulo N.eqb N.ltb N.leb N.of_nat N.to_nat N.succ N.pred
   cfg_wfb spec_prefix spec_delay law
-  BackoffRun.run BackoffRun.spec_obs BackoffRun.into_iter.
+  BackoffRun.run BackoffRun.spec_obs BackoffRun.into_iter
+  TopicName.try_from TopicName.create TopicName.is_valid TopicName.print TopicSpec.name_ok.
